@@ -445,9 +445,17 @@ def _helper_kind(fn):
     if fn.args.vararg or fn.args.kwarg or fn.args.kwonlyargs or fn.decorator_list:
         return None, body
     for n in ast.walk(fn):
-        if isinstance(n, (ast.Yield, ast.YieldFrom, ast.Global, ast.Nonlocal, ast.Lambda)) \
+        if isinstance(n, (ast.YieldFrom, ast.Global, ast.Nonlocal, ast.Lambda)) \
                 or (isinstance(n, (ast.FunctionDef, ast.ClassDef)) and n is not fn):
             return None, body
+    yields = [n for n in ast.walk(fn) if isinstance(n, ast.Yield)]
+    if yields:
+        # 'gen': every yield is a statement of its own with a value, no return at all
+        stmts = {id(n.value) for n in ast.walk(fn) if isinstance(n, ast.Expr)}
+        if all(id(y) in stmts and y.value is not None for y in yields) and not any(
+                isinstance(n, ast.Return) for n in ast.walk(fn)):
+            return "gen", body
+        return None, body
     rets = [n for n in ast.walk(fn) if isinstance(n, ast.Return)]
     if isinstance(body[-1], ast.Return) and body[-1].value is not None and len(rets) == 1 \
             and all(isinstance(s, ast.Assign) and len(s.targets) == 1
@@ -491,6 +499,77 @@ def _bind(fn, call, is_method):
                 return None
             m[p] = dmap[p]
     return m
+
+
+def _jumps_out(body):
+    """break / continue belonging to the loop whose body this is"""
+    todo = list(body)
+    while todo:
+        n = todo.pop()
+        if isinstance(n, (ast.Break, ast.Continue)):
+            return True
+        if isinstance(n, (ast.For, ast.While, ast.FunctionDef, ast.Lambda, ast.ClassDef)):
+            continue
+        todo.extend(ast.iter_child_nodes(n))
+    return False
+
+
+def _replace_yields(block, target, loop_body):
+    out = []
+    for st in block:
+        if isinstance(st, ast.Expr) and isinstance(st.value, ast.Yield):
+            asg = ast.Assign(targets=[copy.deepcopy(target)], value=st.value.value)
+            ast.copy_location(asg, st)
+            ast.fix_missing_locations(asg)
+            out.append(asg)
+            out.extend(copy.deepcopy(loop_body))
+            continue
+        for field in ("body", "orelse", "finalbody"):
+            b = getattr(st, field, None)
+            if isinstance(b, list) and b and isinstance(b[0], ast.stmt):
+                setattr(st, field, _replace_yields(b, target, loop_body))
+        if isinstance(st, ast.Try):
+            for h in st.handlers:
+                h.body = _replace_yields(h.body, target, loop_body)
+        out.append(st)
+    return out
+
+
+def _first_call(e):
+    """The call evaluated first in an expression, provided nothing but plain loads precedes it."""
+    while True:
+        if isinstance(e, ast.Call):
+            if isinstance(e.func, ast.Name) or (isinstance(e.func, ast.Attribute)
+                                                and _simple_arg(e.func.value)):
+                return e
+            if isinstance(e.func, ast.Attribute):
+                e = e.func.value
+                continue
+            return None
+        if isinstance(e, ast.UnaryOp):
+            e = e.operand
+        elif isinstance(e, ast.BinOp):
+            e = e.left
+        elif isinstance(e, ast.BoolOp):
+            e = e.values[0]
+        elif isinstance(e, ast.Compare):
+            e = e.left
+        elif isinstance(e, (ast.Subscript, ast.Attribute)):
+            e = e.value
+        else:
+            return None
+
+
+def _replace_node(root, old, new):
+    if root is old:
+        return new
+
+    class R(ast.NodeTransformer):
+        def visit(self, node):
+            if node is old:
+                return new
+            return self.generic_visit(node)
+    return R().visit(root)
 
 
 def _simple_arg(e):
@@ -571,6 +650,39 @@ class _Inliner:
                         out.extend(self.splice(h, m, st))
                         self.changed = True
                         continue
+            # comprehension over a private generator as the whole value of a statement:
+            # written as the loop it abbreviates (then inlined below)
+            loop = self.comprehension_to_loop(st)
+            if loop is not None:
+                out.extend(self.block(loop))
+                self.changed = True
+                continue
+            # loop over a private generator: the generator's body takes the place of the loop,
+            # every `yield E` becoming `target = E; <loop body>`
+            if isinstance(st, ast.For) and not st.orelse and isinstance(st.iter, ast.Call):
+                h = self.target(st.iter)
+                if h and h[1] == "gen" and not _jumps_out(st.body):
+                    m = _bind(h[0], st.iter, h[3])
+                    if m is not None:
+                        body = self.splice(h, m, st)
+                        out.extend(self.block(_replace_yields(body, st.target, st.body)))
+                        self.changed = True
+                        continue
+            # helper with an arbitrary body and one trailing return, called first in the test of
+            # an if statement
+            if isinstance(st, ast.If):
+                call = _first_call(st.test)
+                h = self.target(call) if call is not None else None
+                if h and h[1] == "tail":
+                    m = _bind(h[0], call, h[3])
+                    if m is not None:
+                        body = self.splice((h[0], h[1], h[2][:-1], h[3]), m, st, keep=h[2][-1])
+                        ret = body.pop()
+                        st.test = _replace_node(st.test, call, ret.value)
+                        out.extend(body)
+                        out.append(st)
+                        self.changed = True
+                        continue
             # helper with an arbitrary body and one trailing return, called as the whole
             # right-hand side of an assignment, a return value or an expression statement
             call = None
@@ -593,6 +705,52 @@ class _Inliner:
             st = self.inline_exprs(st, pre)
             out.extend(pre)
             out.append(st)
+        return out
+
+    def comprehension_to_loop(self, st):
+        if not isinstance(st, (ast.Assign, ast.Return)) or not isinstance(
+                st.value, (ast.ListComp, ast.DictComp)):
+            return None
+        comp = st.value
+        if len(comp.generators) != 1 or comp.generators[0].is_async:
+            return None
+        g = comp.generators[0]
+        if not isinstance(g.iter, ast.Call):
+            return None
+        h = self.target(g.iter)
+        if not h or h[1] != "gen":
+            return None
+        if isinstance(st, ast.Assign):
+            if len(st.targets) != 1 or not isinstance(st.targets[0], ast.Name):
+                return None
+            acc = st.targets[0].id
+            if any(isinstance(n, ast.Name) and n.id == acc for n in ast.walk(comp)):
+                return None
+        else:
+            acc = f"acc__h{next(_counter)}"
+        load = ast.Name(id=acc, ctx=ast.Load())
+        if isinstance(comp, ast.ListComp):
+            init = ast.List(elts=[], ctx=ast.Load())
+            add = ast.AugAssign(target=ast.Name(id=acc, ctx=ast.Store()), op=ast.Add(),
+                                value=ast.List(elts=[comp.elt], ctx=ast.Load()))
+        else:
+            init = ast.Dict(keys=[], values=[])
+            add = ast.Assign(targets=[ast.Subscript(value=load, slice=comp.key,
+                                                    ctx=ast.Store())], value=comp.value)
+        body = [add]
+        for c in reversed(g.ifs):
+            body = [ast.If(test=c, body=body, orelse=[])]
+        tgt = copy.deepcopy(g.target)
+        for n in ast.walk(tgt):
+            if isinstance(n, (ast.Name, ast.Tuple, ast.List, ast.Starred)):
+                n.ctx = ast.Store()
+        out = [ast.Assign(targets=[ast.Name(id=acc, ctx=ast.Store())], value=init),
+               ast.For(target=tgt, iter=g.iter, body=body, orelse=[])]
+        if isinstance(st, ast.Return):
+            out.append(ast.Return(value=ast.Name(id=acc, ctx=ast.Load())))
+        for n in out:
+            ast.copy_location(n, st)
+            ast.fix_missing_locations(n)
         return out
 
     def fresh(self, body, params):
